@@ -352,7 +352,7 @@ class Statement(ConditionalStatementBase):
             include_calls=include_calls)
 
 
-class Nop(NopBase):
+class Nop(Statement, NopBase):
     exec_method = intern("exec_Nop")
 
 
